@@ -5,9 +5,16 @@
      line = - | M | <hexname>:<0|1>      its source lines from the GETOPT_SWITCH line (offset 0) to the
                                          line before GETOPT_DEFAULT; runs the indexing pass of the macros
    result line: R | R | ...   with R = <ev>,<ev>,...;<optind|stopped>  or  fault/assert/fuel
-     ev = O:<name> | A:<name>:<arg> | M:<name> | D:<name>          (no events: "none")
+     ev = O:<name> | A:<name>:<arg> | M:<name> | D:<name>          (no events: "none"; a string of more than
+                                         1024 bytes is shown as ~<length>.<FNV-1a-32>)
    "spec <case>" evaluates the reference parser (each parse fresh), "coded <case>" the
    reference parser with searchopt's first-prefix resolution. *)
+(* strings of more than 1024 bytes are shown as ~<length>.<FNV-1a-32 of the bytes> (as harness/drv_getopt.c does) *)
+let hex_of_bytes l =
+  let n = List.length l in
+  if n <= 1024 then hex_of_bytes l
+  else Printf.sprintf "~%d.%08x" n
+      (List.fold_left (fun h b -> ((h lxor (int_of_n b land 255)) * 16777619) land 0xffffffff) 2166136261 l)
 let show_ev = function
   | Opt os -> "O:" ^ hex_of_bytes os
   | OptArg (os, a) -> "A:" ^ hex_of_bytes os ^ ":" ^ hex_of_bytes a
